@@ -379,24 +379,47 @@ thread_local! {
     /// set once this worker thread reported a failure: every later call on the thread is a shrink
     /// candidate (or the final evaluation of the shrunk case)
     static SHRINKING: std::cell::Cell<bool> = const { std::cell::Cell::new(false) };
+    /// every case reported as failing on this thread (hash of its JSON) with the failure reported
+    static ACCEPTED: std::cell::RefCell<BTreeMap<u64, Fail>> = const { std::cell::RefCell::new(BTreeMap::new()) };
+}
+
+fn case_hash(c: &Case) -> u64 {
+    nv_engine::fnv64(serde_json::to_string(c).unwrap_or_default().as_bytes())
 }
 
 /// The product breaks score ties by the iteration order of a randomly seeded hash set, so a case
-/// whose failure depends on a tie fails only sometimes. A witnessed failure is always reported; while
-/// shrinking, a candidate is accepted only when it fails three times in a row, so that the replay
-/// file holds a case that fails every time.
+/// whose failure depends on a tie fails only sometimes. A witnessed failure is always reported.
+/// While shrinking, a candidate is accepted only when it fails three times in a row (so the replay
+/// file normally holds a case that fails every time), and the final evaluation of a case that was
+/// reported as failing before reports the failure recorded then. `replay` (strict mode) tries a case up to eight
+/// times and reports the first failure.
 fn check(c: &Case, ctx: &mut CaseCtx) -> Result<(), Fail> {
-    let first = check_once(c, ctx);
-    let Err(f) = first else { return Ok(()) };
-    if !SHRINKING.with(|s| s.replace(true)) {
+    if ctx.strict {
+        for _ in 0..8 {
+            check_once(c, ctx)?;
+        }
+        return Ok(());
+    }
+    if !SHRINKING.with(std::cell::Cell::get) {
+        let r = check_once(c, ctx);
+        if let Err(f) = &r {
+            SHRINKING.with(|s| s.set(true));
+            ACCEPTED.with(|a| a.borrow_mut().insert(case_hash(c), f.clone()));
+        }
+        return r;
+    }
+    let h = case_hash(c);
+    if let Some(f) = ACCEPTED.with(|a| a.borrow().get(&h).cloned()) {
         return Err(f);
     }
+    let Err(f) = check_once(c, ctx) else { return Ok(()) };
     for _ in 0..2 {
         match check_once(c, ctx) {
             Err(f2) if f2.sig == f.sig => {},
             _ => return Ok(()),
         }
     }
+    ACCEPTED.with(|a| a.borrow_mut().insert(h, f.clone()));
     Err(f)
 }
 
@@ -1153,8 +1176,8 @@ fn main() {
             "tie order depends on the product's hash-map scan order (random per process); predicates accept every tie order",
         ],
         parts: vec![
-            PropPart::new("ops", 60_000, 3_000_000, gen::ops_strategy, check).shrink_iters(12000).boxed(),
-            PropPart::new("bulk", 4_000, 150_000, gen::bulk_strategy, check).shrink_iters(2500).boxed(),
+            PropPart::new("ops", 40_000, 1_000_000, gen::ops_strategy, check).shrink_iters(12000).boxed(),
+            PropPart::new("bulk", 4_000, 60_000, gen::bulk_strategy, check).shrink_iters(2500).boxed(),
         ],
         children: vec![],
     });
